@@ -17,12 +17,16 @@ import (
 )
 
 type c12Binder struct {
-	fail  bool
-	binds int
+	fail   bool
+	panics bool // the bind attempt crashes inside the binder instead of returning an error
+	binds  int
 }
 
 func (b *c12Binder) Bind(ctx context.Context, task *v1.Pod, host *v1.Node, br *schedulingv1alpha2.BindRequest) error {
 	b.binds++
+	if b.fail && b.panics {
+		panic("bind attempt crashed")
+	}
 	if b.fail {
 		return &c12Err{}
 	}
@@ -83,6 +87,7 @@ func VerifC12_RetryStep() {
 	}
 	r, st, b := c12Setup(phase, failed, limit)
 	b.fail = true
+	b.panics = vr.AnyBool("bindPanics") // a failed attempt is a returned error or a recovered panic
 	res, err := r.Reconcile(context.Background(), c12Req)
 	stored := st.BindRequests["ns/br"]
 	vr.Observe("binds", b.binds)
@@ -103,6 +108,8 @@ func VerifC12_RetryStep() {
 		if limit != nil {
 			if *limit <= 0 {
 				vr.Assert(stored.Status.FailedAttempts <= *limit, "C12.retry-only-within-limit#nonpositive-limit")
+			} else if b.panics {
+				vr.Assert(stored.Status.FailedAttempts <= *limit, "C12.retry-only-within-limit#bind-panics")
 			} else {
 				vr.Assert(stored.Status.FailedAttempts <= *limit, "C12.retry-only-within-limit")
 			}
